@@ -115,6 +115,21 @@ def build_programs(run):
     for i, p in enumerate(rp):
         cs = [cfgs[(i * 3 + j * 5) % 16] for j in range(4 if quick else 8)]
         items.append((p, cs, i % 3 == 0, i % 3 == 0))
+    # 3b. composite state: stores through literal subscripts inside control-flow bodies (core always, rest stride-sampled)
+    cs = list(c17_gen.composite_state_programs())
+    cs_cfgs = [cfgs[0], (False, ('BUILTIN_FUNCTIONS', 'EQUALITY_OPERATORS')), (True, ('LISTS',))]
+    cs_stride = 6 if quick else 1
+    cs_off = rng.randrange(cs_stride)
+    ncs = 0
+    for i, (core, cat, desc, p) in enumerate(cs):
+        if core:
+            items.append((p, cs_cfgs[:2], i % 7 == 0, i % 5 == 0))
+            ncs += 1
+        elif i % cs_stride == cs_off:
+            items.append((p, [cs_cfgs[i % 3]] if quick else cs_cfgs, i % 9 == 0, i % 6 == 0))
+            ncs += 1
+    info['composite_state'] = {'space': len(cs), 'core_always_run': len([1 for c in cs if c[0]]), 'stride': cs_stride, 'offset': cs_off,
+                               'run': ncs, 'exhaustive': cs_stride == 1}
     # 4. site coverage outside the 16 option sets: the assert converter only runs under Feature.ASSERT_STATEMENTS
     acfg = [(True, ('ASSERT_STATEMENTS',)), (False, ('ASSERT_STATEMENTS', 'LISTS'))]
     asserts = ['assert a', 'assert a, "msg"', 'assert (a, b)', 'assert a < b < c, f"{a}"', 'assert tr(a), (b, c)',
@@ -136,7 +151,7 @@ def build_programs(run):
     for i, src in enumerate(clos):
         p = progen.Program(progen.PRELUDE + src, [], ['closure_entity'], 'closureent')
         items.append((p, [cfgs[(i * 5) % 16], cfgs[(i * 5 + 9) % 16]], True, True))
-    info['counts'] = {'closure_entities': len(clos), 'lambda_entities': len(lams), 'assert_feature': len(asserts), 'unusual_forms': len([1 for it in items if it[0].kind == 'unusual']) - n_un, 'unusual_random': n_un,
+    info['counts'] = {'closure_entities': len(clos), 'lambda_entities': len(lams), 'assert_feature': len(asserts), 'unusual_forms': len([1 for it in items if it[0].kind == 'unusual']) - n_un, 'composite_state': ncs, 'unusual_random': n_un,
                       'skeletons': len(sk), 'random': len(rp)}
     return items, info
 
